@@ -30,15 +30,35 @@ def gmm_params(rng, C, D, scales=None):
     return w, m, v, scales
 
 
-def mk_gmm(w, m, v, thr=None, **kw):
+def mk_gmm(w, m, v, thr=None, order="thr_first", **kw):
+    """Build a machine through one of the public construction routes (`order`):
+    thr_first  floors, then weights/means/variances (what from_hdf5 does);
+    thr_last   weights/means/variances, then the floors (the floors clamp what is already stored);
+    ubm_copy   a MAP machine constructed from a UBM built thr_first (the constructor copies means, variances, floors, weights);
+    restage    variances set to something else first, floors raised in two steps, then the final variances."""
     from bob.learn.em import GMMMachine
 
+    w, m, v = (np.array(a, dtype=float) for a in (w, m, v))
+    t = None if thr is None else (np.array(thr, dtype=float) if np.ndim(thr) else float(thr))
+    if order == "ubm_copy":
+        return GMMMachine(len(w), trainer="map", ubm=mk_gmm(w, m, v, thr=thr), **kw)
     g = GMMMachine(len(w), **kw)
-    if thr is not None:
-        g.variance_thresholds = np.array(thr, dtype=float) if np.ndim(thr) else float(thr)
-    g.weights = np.array(w, dtype=float)
-    g.means = np.array(m, dtype=float)
-    g.variances = np.array(v, dtype=float)
+    if order == "thr_last":
+        g.weights, g.means, g.variances = w, m, v
+        if t is not None:
+            g.variance_thresholds = t
+        return g
+    if order == "restage":
+        g.weights, g.means = w[::-1].copy(), m + 1.0
+        g.variances = v * 3.0
+        if t is not None:
+            g.variance_thresholds = t * 0.5
+            g.variance_thresholds = t
+        g.weights, g.means, g.variances = w, m, v
+        return g
+    if t is not None:
+        g.variance_thresholds = t
+    g.weights, g.means, g.variances = w, m, v
     return g
 
 
